@@ -117,13 +117,32 @@ RunTx(cfg, sch, idx, topo, hs, st, mut, veto) ==
                      THEN EnterPh(i + 1, [a1 EXCEPT !.tgt = SWithout(@, s)])
                      ELSE [a1 EXCEPT !.res = "canceled"]
                 ELSE EnterPh(i + 1, a1)
-      \* ---- emitSelfEvents (transition.go:488-522).  The Go loop ranges
-      \* over the slice header taken before the loop while slices.Delete
+      \* ---- emitSelfEvents (transition.go:488-522).  Pinned code: the Go loop
+      \* ranges over the slice header taken before the loop while slices.Delete
       \* shifts the shared backing array left and zeroes the tail: after a
       \* partial-acceptance delete the next element is skipped.  `arr` is the
       \* backing array (fixed length), `n` the logical length of the target.
-      \* The function returns the result of the LAST handler call.
+      \* The function returns the result of the LAST handler call - a rejected
+      \* Auto state whose self handler happens to be called last cancels the
+      \* whole auto transition.  Repaired (cfg.selffix, fix: C07): the loop
+      \* walks a copy of the target and a partial rejection is not a Cancel.
+      SelfPhFixed(acc) ==
+        LET L == Len(acc.tgt)
+            RECURSIVE Go(_, _)
+            Go(p, a) ==
+              IF p > L THEN a
+              ELSE LET s == acc.tgt[p]
+                   IN IF ~SHas(active, s) THEN Go(p + 1, a)
+                      ELSE LET r == CallH(hs, veto, <<"self", s>>, FALSE)
+                               a1 == [a EXCEPT !.log = @ \o r.log]
+                           IN IF r.res = "canceled"
+                              THEN IF partial(s)
+                                   THEN Go(p + 1, [a1 EXCEPT !.tgt = SWithout(@, s)])
+                                   ELSE [a1 EXCEPT !.res = "canceled"]
+                              ELSE Go(p + 1, a1)
+        IN Go(1, [acc EXCEPT !.res = "executed"])
       SelfPh(acc) ==
+        IF cfg.selffix THEN SelfPhFixed(acc) ELSE
         LET L == Len(acc.tgt)
             RECURSIVE Go(_, _, _, _, _)
             Go(p, arr, n, a, last) ==
